@@ -52,7 +52,7 @@ let c15_table : (string * (Z.t list -> Z.t list option)) list = Model.[
   "interp", run_interp; "baryw", run_baryw; "interpolate", run_interpolate; "interp2", run_interp2;
   "zpoc", run_zpoc; "zpoc_l0", run_zpoc_l0; "cosetshifts", run_cosetshifts ]
 
-let c05_table : (string * (Z.t list -> Z.t list option)) list = Model.[ "friverify", run_friverify; "aritybits", run_arity_bits; "friprove", run_friprove ]
+let c05_table : (string * (Z.t list -> Z.t list option)) list = Model.[ "friverify", run_friverify; "aritybits", run_arity_bits; "friprove", run_friprove; "batchfriverify", run_batchfriverify ]
 
 let c17_table : (string * (Z.t list -> Z.t list option)) list = Model.[
   "enc_u8", run_enc_u8; "enc_u32", run_enc_u32; "enc_usize", run_enc_usize; "enc_bool", run_enc_bool;
